@@ -10,6 +10,24 @@ pub const SPEC_NAMES: [&str; 20] = [
     "FBM", "FOX", "FO8", "BF1",
 ];
 
+/// (a base frame, the offset of the car field) for every packet kind that has one
+pub fn car_fields(ls: &crate::pkt::Layouts, compressed: bool) -> Vec<(Vec<u8>, usize)> {
+    use crate::pkt::*;
+    let mut out = vec![];
+    for l in ls.kinds.iter() {
+        let fields = l["fields"].as_array().cloned().unwrap_or_default();
+        if !fields.iter().any(|f| f["ty"]["id"] == "Vehicle") { continue; }
+        let base = gen_frame(&mut Rng::new(7), l, compressed, &GenOpts { wild: 0, text: 0, count: Some(1) });
+        let mut off = 2usize;
+        for f in &fields {
+            off += f["rb"].as_u64().unwrap_or(0) as usize;
+            if f["ty"]["id"] == "Vehicle" && off + 4 <= base.len() { out.push((base.clone(), off)); }
+            off += ty_size(&f["ty"]) + f["ra"].as_u64().unwrap_or(0) as usize;
+        }
+    }
+    out
+}
+
 pub fn read_veh(b: &[u8]) -> Option<Result<Vehicle, ()>> {
     let b = b.to_vec();
     guard(move || Vehicle::read_le(&mut Cursor::new(&b)).map_err(|_| ()))
@@ -114,9 +132,52 @@ fn oracle_word(b: [u8; 4]) -> Option<(&'static str, String, String)> {
     None
 }
 
+/// the same rule where a car identifier actually travels: inside every packet kind that has such a field. Whatever the bare
+/// codec says about the four bytes (a car, unknown, a mod, an error) is what the packet says; a packet never turns an
+/// unrecognised built-in-style name into some car
+pub fn in_packet_case(ctx: &mut Ctx, ls: &crate::pkt::Layouts, compressed: bool, frame: &[u8], off: usize) {
+    use crate::pkt::*;
+    let w = [frame[off], frame[off + 1], frame[off + 2], frame[off + 3]];
+    let op = format!("pkt.rt {}", frame_text(compressed, frame));
+    ctx.oracle_eval("car-in-packet");
+    let bare = read_veh(&w);
+    let kind = ls.kinds.iter().find(|l| l["type_no"].as_u64() == frame.get(1).map(|b| *b as u64)).and_then(|l| l["kind"].as_str()).unwrap_or("?").to_string();
+    match (bare, real_decode(compressed, frame)) {
+        (Some(Err(())), Dec::Pkt(p, _)) => ctx.violation(&format!("c13/in-packet/{}/error-swallowed", kind), "an identifier the rule rejects (an unrecognised built-in-style name) is accepted inside a packet", &op, "a decode error", &truncate(&serde_json::to_string(&p).unwrap_or_default(), 160)),
+        (Some(Ok(v)), Dec::Pkt(p, _)) => {
+            let want = serde_json::to_value(&v).unwrap();
+            let got = serde_json::to_value(&p).unwrap();
+            // the car field of the packet (any depth), compared with the bare decode
+            fn find<'a>(x: &'a serde_json::Value, want: &serde_json::Value) -> bool {
+                if x == want { return true; }
+                match x { serde_json::Value::Object(m) => m.values().any(|y| find(y, want)), serde_json::Value::Array(a) => a.iter().any(|y| find(y, want)), _ => false }
+            }
+            if !find(&got, &want) { ctx.violation(&format!("c13/in-packet/{}/different-car", kind), "inside a packet the identifier decodes to something else than the rule gives", &op, &want.to_string(), &truncate(&got.to_string(), 160)); }
+            match real_encode(compressed, &p) {
+                Some(Ok(e)) if e.len() >= off + 4 && e[off..off + 4] == w => {},
+                Some(Ok(e)) => ctx.violation(&format!("c13/in-packet/{}/reencode", kind), "the identifier does not re-encode to the identical 4 bytes inside its packet", &op, &hex(&w), &hex(&e[off.min(e.len())..(off + 4).min(e.len())])),
+                _ => {},
+            }
+        },
+        (Some(Ok(_)), Dec::ErrDecode(_)) => ctx.violation(&format!("c13/in-packet/{}/rejected", kind), "an identifier the rule accepts is rejected inside a packet", &op, "a packet", "decode error"),
+        (_, Dec::Panic) | (None, _) => ctx.violation(&format!("c13/in-packet/{}/panic", kind), "decoding the identifier panicked", &op, "value or error", "panic"),
+        _ => {},
+    }
+}
+
 pub fn run(ctx: &mut Ctx) {
     if let Some(lines) = ctx.replay.clone() {
+        let ls = crate::pkt::load_layouts();
         for l in lines {
+            if let Some(rest) = l.strip_prefix("pkt.rt ") {
+                // find the car field of that kind again
+                let w: Vec<&str> = rest.split_whitespace().collect();
+                if let [m, h] = w.as_slice() {
+                    let f = unhex(h);
+                    for (kind_frames, off) in car_fields(&ls, *m == "c") { if kind_frames.get(1) == f.get(1) { in_packet_case(ctx, &ls, *m == "c", &f, off); } }
+                }
+                continue;
+            }
             if let Some(h) = l.strip_prefix("veh ") {
                 let b = unhex(h.trim());
                 ctx.case(&l, &line(&b));
@@ -128,6 +189,26 @@ pub fn run(ctx: &mut Ctx) {
             }
         }
         return;
+    }
+    // inside packets: every kind with a car field x {every built-in name, unrecognised built-in-style names, unknown, mods}
+    {
+        let ls = crate::pkt::load_layouts();
+        let mut n = 0u64;
+        for compressed in [true, false] {
+            for (base, off) in car_fields(&ls, compressed) {
+                let mut ids: Vec<[u8; 4]> = SPEC_NAMES.iter().map(|n| [n.as_bytes()[0], n.as_bytes()[1], n.as_bytes()[2], 0]).collect();
+                for u in ["ABC", "XFX", "F08", "UF2", "000", "zzz", "xfg", "BF2", "FO9", "A1B"] { ids.push([u.as_bytes()[0], u.as_bytes()[1], u.as_bytes()[2], 0]); }
+                for v in [0u32, 1, 0x00AB_CDEF, 0x00FF_FFFF, 0x0100_0000, 0x8047_4658, 0x0147_4658, 0xFFFF_FFFF, 0x00F3_4241] { ids.push(v.to_le_bytes()); }
+                for id in ids {
+                    let mut f = base.clone();
+                    f[off..off + 4].copy_from_slice(&id);
+                    in_packet_case(ctx, &ls, compressed, &f, off);
+                    n += 1;
+                }
+            }
+        }
+        *ctx.distribution.entry("car identifiers tried inside packets".into()).or_insert(0) = n;
+        ctx.exhaustive_domains.push("every packet kind with a car field x {20 built-in names, 10 unrecognised built-in-style names, unknown, 8 mod ids} x both size modes".into());
     }
     // class representatives: boundaries of the three alphanumeric ranges, NUL, high bytes, letters of real names
     let reps: Vec<u8> = vec![
